@@ -347,17 +347,19 @@ func specSliceCount(byteCount, sliceByteCount int) int {
 // C03/C01/C14: the per-file flags are truthful about the bytes that were read: `missing` exactly
 // when the read reported not-exist, otherwise hashMismatch and hasWrongByteCount are exactly
 // the comparisons of the whole-file MD5, the first-16-KiB MD5 and the length with the file's
-// description packet -- on every path (no shortcut may skip them).
+// description packet -- on every path (no shortcut may skip them). (check-ensures: the clauses
+// name the function's own locals err/data, so they are proved at its returns and not exported
+// to callers.)
 //@ func (*Decoder).fillFileIntegrityInfos
 //@   props C18 C15 C03 C01 C14
 //@   skip-safety
 //@   assert-call fileIO.ReadFile : arg0 == pathJoin(pathDir(d.indexPath), info.filename)
 //@   ensures implies(gIOFailed && !old(gIOFailed), result3 != nil)
-//@   ensures implies(isNotExist(err), result3 == nil && fileIntegrityInfos[i].missing)
-//@   ensures implies(!isNotExist(err) && err != nil, result3 != nil)
-//@   ensures implies(err == nil, result3 == nil && result0 == len(data))
-//@   ensures implies(err == nil, fileIntegrityInfos[i].hashMismatch == (md5(bytes(data[:min(len(data), 16384)])) != info.sixteenKHash || md5(bytes(data)) != info.hash))
-//@   ensures implies(err == nil, fileIntegrityInfos[i].hasWrongByteCount == (len(data) != info.byteCount))
+//@   check-ensures implies(isNotExist(err), result3 == nil && fileIntegrityInfos[i].missing)
+//@   check-ensures implies(!isNotExist(err) && err != nil, result3 != nil)
+//@   check-ensures implies(err == nil, result3 == nil && result0 == len(data))
+//@   check-ensures implies(err == nil, fileIntegrityInfos[i].hashMismatch == (md5(bytes(data[:min(len(data), 16384)])) != info.sixteenKHash || md5(bytes(data)) != info.hash))
+//@   check-ensures implies(err == nil, fileIntegrityInfos[i].hasWrongByteCount == (len(data) != info.byteCount))
 
 //@ func (*Decoder).LoadFileData
 //@   props C18
